@@ -113,6 +113,33 @@ def eval_case(case):
         except Exception as exc:
             if not (ver[0].isdigit() and not all(p.isdigit() for p in ver.split("."))):
                 fails.append("legacy %s document with id %r rejected: %s: %s" % (case["legacy"], cid, type(exc).__name__, exc))
+        if not fails and case.get("rseed", 0) % 4 == 0:
+            # the same legacy document read into an object with a past: one on which the load of a current-version document
+            # was refused part-way (a compose id without a date; refused before any variant is filed).  (An object that
+            # completed a load cannot take a second one at all - the variants of the first stay filed - so that is no case.)
+            cur = {"header": {"version": "1.2", "type": "productmd.composeinfo"},
+                   "payload": {"compose": {"id": "Other-1-20000101.t.4", "type": "test", "date": "20000101", "respin": 4},
+                               "release": {"name": "Other", "short": "Other", "version": "1", "type": "ga", "internal": False},
+                               "variants": {"Foo": {"id": "Foo", "uid": "Foo", "name": "Foo", "type": "variant", "arches": ["x86_64"], "paths": {}}}}}
+            bad = json.loads(json.dumps(cur))
+            bad["payload"]["compose"]["id"] = "Other-1-nodate"
+            for label, first in (("after a refused load of a current-version document", bad),):
+                c3 = ComposeInfo()
+                try:
+                    c3.loads(json.dumps(first))
+                except Exception:
+                    pass
+                try:
+                    c3.loads(json.dumps(doc))
+                    got3 = (c3.compose.date, c3.compose.type, c3.compose.respin)
+                    want3 = (c2.compose.date, c2.compose.type, c2.compose.respin)
+                    if got3 != want3:
+                        fails.append("legacy %s document with id %r read into an object %s gives %r, a fresh object gives %r"
+                                     % (case["legacy"], cid, label, got3, want3))
+                except Exception as exc:
+                    if c2.compose.date is not None:
+                        fails.append("legacy %s document with id %r read into an object %s is rejected (%s: %s) though a fresh object reads it"
+                                     % (case["legacy"], cid, label, type(exc).__name__, exc))
     return fails
 
 
